@@ -58,6 +58,8 @@ type Term struct {
 	k       uint64 // constant value; or hi<<8|lo for extract
 	name    string // var / UF name
 	args    []*Term
+	blen    uint8 // memo for bitLen (value+1; 0 = not computed)
+	algn    int64 // memo for alignOf (0 = not computed)
 }
 
 func (t *Term) IsConst() bool { return t.op == OpConst }
@@ -758,11 +760,16 @@ func bitLen(t *Term) uint8 {
 		}
 		return h + t.b.w
 	case OpIte:
-		x, y := bitLen(t.b), bitLen(t.c)
-		if x > y {
-			return x
+		// memoised: ite DAGs share sub-terms heavily
+		if t.blen != 0 {
+			return t.blen - 1
 		}
-		return y
+		x, y := bitLen(t.b), bitLen(t.c)
+		if x < y {
+			x = y
+		}
+		t.blen = x + 1
+		return x
 	}
 	return t.w
 }
